@@ -16,7 +16,20 @@ import (
 // points the build at the copy with -modfile. The copy is removed right after
 // the build (the test binary is self-contained).
 func prepareC18(work string) ([]string, []string, func(), error) {
-	scratch, err := os.MkdirTemp("", "verif-c18-")
+	return prepareScratch("logger", astyield.Options{}, "c18scratch")
+}
+
+// prepareC04: the same for package rtmp, with preemption points in front of every
+// statement that touches the outstanding-transaction table or its lock (also
+// right before the lock is taken), so that the tape can interleave the writer's
+// registration and the reader's lookup at the lock boundaries and not only at
+// transport operations.
+func prepareC04(work string) ([]string, []string, func(), error) {
+	return prepareScratch("rtmp", astyield.Options{Fields: []string{"transactions", "ltransactions"}}, "c04scratch")
+}
+
+func prepareScratch(pkg string, opt astyield.Options, tag string) ([]string, []string, func(), error) {
+	scratch, err := os.MkdirTemp("", "verif-scratch-")
 	if err != nil {
 		return nil, nil, nil, err
 	}
@@ -27,7 +40,7 @@ func prepareC18(work string) ([]string, []string, func(), error) {
 		return nil, nil, nil, fmt.Errorf("copy: %v %s", err, out)
 	}
 	os.RemoveAll(filepath.Join(dst, ".git"))
-	st, err := astyield.RewriteDir(filepath.Join(dst, "logger"))
+	st, err := astyield.RewriteDirOpts(filepath.Join(dst, pkg), opt)
 	if err != nil {
 		cleanup()
 		return nil, nil, nil, fmt.Errorf("astyield: %v", err)
@@ -53,8 +66,8 @@ func prepareC18(work string) ([]string, []string, func(), error) {
 	if gs, err := os.ReadFile(filepath.Join(verif, "sim", "go.sum")); err == nil {
 		os.WriteFile(filepath.Join(scratch, "go.sum"), gs, 0o644)
 	}
-	fmt.Printf("C18: scratch copy %s, %d preemption points inserted (%d compound assignments split)\n", dst, st.Yields, st.Splits)
-	return []string{"-modfile=" + modfile, "-tags=c18scratch"}, nil, cleanup, nil
+	fmt.Printf("scratch copy %s: %d preemption points inserted into package %s (%d compound assignments split)\n", dst, st.Yields, pkg, st.Splits)
+	return []string{"-modfile=" + modfile, "-tags=" + tag}, nil, cleanup, nil
 }
 
 var stdAssume = []string{
@@ -133,15 +146,15 @@ var metas = map[string]*checkMeta{
 	"C04": {
 		ID: "C04", Level: "exploration",
 		Phases: []phase{
-			{Name: "oracle", Pkg: "checks/c04",
+			{Name: "oracle", Pkg: "checks/c04", Prepare: prepareC04,
 				Quick: tierCfg{Count: 3000, Budget: 60 * time.Second},
 				Thor:  tierCfg{Count: 250000, Budget: 20 * time.Minute}},
-			{Name: "race", Pkg: "checks/c04", Race: true, Env: []string{"VERIF_ENGINE=race"},
+			{Name: "race", Pkg: "checks/c04", Race: true, Env: []string{"VERIF_ENGINE=race"}, Prepare: prepareC04,
 				Quick: tierCfg{Count: 300, Budget: 60 * time.Second},
 				Thor:  tierCfg{Count: 6000, Budget: 15 * time.Minute}},
 		},
 		Rule: "plan = request sequence of endpoint A (connect / createStream with distinct positive ids, up to 12) with a per-request answer mode for the peer (at once, delayed until the next request, at the end; optionally answered twice) x an optional transport write error at one of W's write calls (accepting nothing, 3 bytes or everything) x segmentation x schedule tape over the tasks W (marshal, transport write(s), bookkeeping), R (read, decode, lookup) and P (read, respond); the transport deposits W's bytes and then yields, so P and R can run inside W's write call. Phase 'oracle': channel gates, direct oracle on the ordered event log + porcupine cross-check. Phase 'race': the same plans on raw-futex gates in a -race build; any race report with both accesses in go-oryx-lib is a violation. Non-trivial = at least one request. Distinct = distinct plan bodies.",
-		Components: map[string]string{"rtmp.Protocol A (WritePacket, ReadMessage, DecodeMessage)": "real", "peer P": "real rtmp.Protocol driven by a responder task", "transport": "sim duplex with post-deposit yield", "scheduler": "tape-driven; channel gates (oracle) / raw futex gates invisible to the race detector (race)", "linearizability": "porcupine v1.3.0 against a sequential map model"},
+		Components: map[string]string{"rtmp.Protocol A (WritePacket, ReadMessage, DecodeMessage)": "real", "peer P": "real rtmp.Protocol driven by a responder task", "transport": "sim duplex with post-deposit yield", "scheduler": "tape-driven; channel gates (oracle) / raw futex gates invisible to the race detector (race); package rtmp is compiled from a scratch copy with go/ast-inserted preemption points at the transaction table's lock boundaries", "linearizability": "porcupine v1.3.0 against a sequential map model"},
 		Assumptions: append([]string{"a request counts as handed to the transport at the scheduler step of the deposit that carries its last byte", "race engine: handshake skipped; only detector reports whose two access stacks both top out in go-oryx-lib are violations, anything else is harness trouble (exit 2)"}, stdAssume...),
 		Faults:      []string{"fault_write_error", "requests_failed_by_write_fault", "short_reads", "split_writes", "blocked_reads", "responses_decoded_inside_write_call", "duplicate_responses"},
 		Probes:      []string{"responses_decoded_inside_write_call", "duplicate_responses", "porcupine_histories_checked", "race_engine_runs", "task_switches"},
@@ -153,7 +166,7 @@ var metas = map[string]*checkMeta{
 			Thor:  tierCfg{Count: 25000, Budget: 20 * time.Minute}}},
 		Rule: "plan = history: counter change points at simulated instants (steady growth, bursts, counter stalls, jumps up to 2^62, reset to a smaller value or 0, start near 2^64), stalls of the source (Count() sleeps 1 ms..400 s of simulated time, making the sampling instants irregular: sub-window and multi-window gaps), Average() calls at arbitrary instants, meter kind (requests / bitrate), Start offset, duration 45 s..2 h of simulated time; getters are read after every sample (1 s polling of the fake clock) and all four before Start. Non-trivial = at least two sampler observations. Distinct = distinct plan bodies.",
 		Components: map[string]string{"kxps.NewKrps/NewKbps, Start, sampler goroutine, getters, Close": "real (public API only)", "clock and 10 s timer": "testing/synctest bubble (go1.26.8): fake clock", "counter source": "scripted seam (stub) with stalls"},
-		Assumptions: append([]string{"a changed window rate must equal increase/W against a previous sample of that window that is at least W old (existential over the candidates); with gap-free 10 s sampling the window must fire exactly when due", "an observation of 0 may be ignored by the meter (rates may stay)", "increase is the 64-bit modular difference interpreted as signed (wrap-around counts as growth, going backwards as 0)", "a sampler that never leaves after Close ends the bubble in a deadlock and is reported as harness trouble (the statement does not speak about it)"}, stdAssume...),
+		Assumptions: append([]string{"a changed window rate must equal increase/W against a previous sample of that window that is at least W old (existential over the candidates); with gap-free 10 s sampling the window must fire exactly when due", "an observation of 0 may be ignored by the meter (rates may stay)", "increase is the 64-bit modular difference interpreted as signed (wrap-around counts as growth, going backwards as 0)", "a sampler goroutine that never leaves after Close is counted (goroutines_left_blocked_at_end_of_run) but not judged: the statement does not speak about it"}, stdAssume...),
 		Faults:      []string{"source_stalls_fired", "irregular_sampling_gaps"},
 		Probes:      []string{"window_10s_fired", "window_30s_fired", "window_300s_fired", "average_reads_checked", "getters_refused_before_start", "sampler_observations"},
 	},
